@@ -1,6 +1,7 @@
 package props
 
 import (
+	"bytes"
 	"encoding/base64"
 	"encoding/json"
 	"fmt"
@@ -383,6 +384,49 @@ func c10(r *hx.Run) {
 		if s.typ != "deactivate" {
 			d := len(jcs.MustCanon(tree["delta"]))
 			bound("MaxDeltaSize", d, false, func(p *protocol.Protocol, v uint) { p.MaxDeltaSize = v })
+		}
+		if s.typ != "deactivate" {
+			// a request that is SMALLER on the wire than its canonical delta (numbers spelled 1e20 expand to 21 digits): the delta
+			// limit applies to the canonical delta, however small the request is
+			cp := *s
+			big := make([]interface{}, 80)
+			for i := range big {
+				big[i] = 1e20
+			}
+			extra := fx.JSONPatch(fx.JOp("add", "/big", big))
+			if s.create != nil {
+				c := *s.create
+				c.Patches = append(append([]interface{}{}, c.Patches...), extra)
+				cp.create = &c
+			} else {
+				o := *s.op
+				o.Patches = append(append([]interface{}{}, o.Patches...), extra)
+				cp.op = &o
+			}
+			canonReq := cp.build()
+			wire := bytes.ReplaceAll(canonReq, []byte("100000000000000000000"), []byte("1e20"))
+			var t2 map[string]interface{}
+			_ = json.Unmarshal(wire, &t2)
+			d2 := len(jcs.MustCanon(t2["delta"]))
+			if len(wire) >= d2 {
+				panic(fmt.Sprintf("seed %s: wire request (%d) is not smaller than its canonical delta (%d)", s.name, len(wire), d2))
+			}
+			for _, dv := range []int{-1, 0} {
+				caseID := fmt.Sprintf("a|%s|MaxDeltaSize:wire-smaller-than-canonical|%+d", s.name, dv)
+				if !r.Want(caseID) {
+					continue
+				}
+				p := base
+				p.MaxDeltaSize = uint(d2 + dv)
+				err := parse(p, wire)
+				r.Eval()
+				r.Trans(1)
+				r.Nontrivial(caseID)
+				if (err == nil) != (dv >= 0) {
+					r.Violation(fmt.Sprintf("boundary:MaxDeltaSize:wire-smaller-than-canonical:%+d:accepted=%v", dv, err == nil), caseID,
+						fmt.Sprintf("%s: request of %d bytes whose canonical delta has %d bytes, MaxDeltaSize=%d: accepted=%v (%v)", s.name, len(wire), d2, d2+dv, err == nil, err), map[string]interface{}{"request": string(wire)})
+				}
+			}
 		}
 		bound("MaxOperationHashLength", len(fx.Multihash(fx.SHA256, []byte("x"))), false, func(p *protocol.Protocol, v uint) { p.MaxOperationHashLength = v })
 		if s.nonce != "" {
